@@ -27,7 +27,10 @@ def exercise(ctx):
     ctx.count("types_checked", len(ctx.inner["must_have"]) + len(ctx.inner["must_not"]))
     # services and methods
     kept_api = copy.deepcopy(ctx.api)
+    targets = ctx.api.get("file_to_generate")
     for f in kept_api["files"]:
+        if targets and f["name"] not in targets:
+            continue
         pkg = importlib.import_module(module_of_file(ctx, f))
         new_svcs = []
         for s in f.get("services", []):
@@ -81,7 +84,7 @@ def exercise(ctx):
         from . import c03
         sub = copy.copy(ctx)
         sub.api = kept_api
-        sub.services = lambda: ((f, s) for f in kept_api["files"] for s in f.get("services", []))
+        sub.services = lambda: ((f, s) for f in kept_api["files"] if not targets or f["name"] in targets for s in f.get("services", []))
         saved = ctx.violations
         c03.exercise.__globals__["import_all_done"] = True
         c03.exercise(sub)
